@@ -71,6 +71,29 @@ fn open_window(addr: &Address) -> Rc<dyn Fn(&mut U)> {
     })
 }
 
+/// The migration after the ownership changed hands while the window was open: it belongs to the
+/// new owner; the owner who upgraded is a former holder now.
+fn migrate_after_handover(rep: &mut Report, u: &mut U, prefix: &str, addr: &Address, migrate_string: bool, owners: &[Address], newcomer: &Address, stranger: &Address, history: &str) {
+    let (a, n) = (addr.clone(), newcomer.clone());
+    let prep: Rc<dyn Fn(&mut U)> = Rc::new(move |u: &mut U| {
+        let (a, n) = (a.clone(), n.clone());
+        u.setup(move |env| {
+            UpgradableClient::new(env, &a).upgrade(&native_hash(env));
+            OwnableClient::new(env, &a).transfer_ownership(&n);
+        });
+    });
+    let ep = Ep {
+        holder_may_fail: false,
+        name: format!("{}.migrate(ownership-moved-inside-window)", prefix),
+        role: "owner",
+        call: migrate_call(addr, migrate_string),
+        other_args: vec![],
+        beneficiary: None,
+        prep: Some(prep),
+    };
+    matrix(rep, u, &ep, newcomer, owners, None, stranger, history);
+}
+
 /// The three entry points every upgradable + ownable contract has.
 fn common_eps(prefix: &str, addr: &Address, newcomer: &Address, other: &Address, other_hash: &BytesN<32>, migrate_string: bool, current_owner: Option<&Address>) -> Vec<Ep> {
     let mut v = Vec::new();
@@ -246,12 +269,15 @@ pub fn matrix(rep: &mut Report, u: &mut U, ep: &Ep, holder: &Address, formers: &
 }
 
 pub fn run(ctx: &Ctx, rep: &mut Report) {
-    let total = (CONTRACTS.len() * HISTORIES.len()) as u64 * if ctx.thorough() { 3 } else { 1 };
+    // x2: roles held by different addresses / initially by one and the same address
+    let total = (CONTRACTS.len() * HISTORIES.len()) as u64 * 2 * if ctx.thorough() { 3 } else { 1 };
     for uni in ctx.my_universes(total) {
         let mut rng = ctx.rng_for(uni);
         rep.begin_universe(uni);
         let contract = CONTRACTS[(uni as usize) % CONTRACTS.len()];
         let history = HISTORIES[(uni as usize / CONTRACTS.len()) % HISTORIES.len()];
+        let aliased = (uni as usize / (CONTRACTS.len() * HISTORIES.len())) % 2 == 1;
+        rep.count(if aliased { "roles:initially-one-address" } else { "roles:distinct-addresses" });
         rep.step(format!("contract={} history={}", contract, history));
         rep.count(&format!("history:{}", history));
         rep.count(&format!("contract:{}", contract));
@@ -260,7 +286,7 @@ pub fn run(ctx: &Ctx, rep: &mut Report) {
                 let mut u = U::new();
                 let mut ring = KeyRing::default();
                 let owner0 = u.principal();
-                let operator0 = u.principal();
+                let operator0 = if aliased { owner0.clone() } else { u.principal() };
                 let stranger = u.principal();
                 let newcomer = u.principal();
                 let other = u.principal();
@@ -339,6 +365,7 @@ pub fn run(ctx: &Ctx, rep: &mut Report) {
                 for ep in &eps {
                     matrix(rep, &mut u, ep, &owner, &owners[..owners.len() - 1], Some(&operator), &stranger, history);
                 }
+                migrate_after_handover(rep, &mut u, "gateway", &g.addr, false, &owners, &newcomer, &stranger, history);
                 matrix(rep, &mut u, &older_ep, &operator, &operators[..operators.len() - 1], Some(&owner), &stranger, history);
                 for ep in &op_eps {
                     matrix(rep, &mut u, ep, &operator, &operators[..operators.len() - 1], Some(&owner), &stranger, history);
@@ -348,7 +375,7 @@ pub fn run(ctx: &Ctx, rep: &mut Report) {
             "gas-service" => {
                 let mut u = U::new();
                 let owner0 = u.principal();
-                let collector = u.principal();
+                let collector = if aliased { owner0.clone() } else { u.principal() };
                 let stranger = u.principal();
                 let newcomer = u.principal();
                 let other = u.principal();
@@ -369,6 +396,7 @@ pub fn run(ctx: &Ctx, rep: &mut Report) {
                 for ep in &eps {
                     matrix(rep, &mut u, ep, &owner, &owners[..owners.len() - 1], Some(&collector), &stranger, history);
                 }
+                migrate_after_handover(rep, &mut u, "gas-service", &gs, false, &owners, &newcomer, &stranger, history);
                 // collector entry points (the collector is fixed at construction)
                 let mk = |amount: i128, refund: bool| -> Call {
                     let (a, r, t) = (gs.clone(), receiver.clone(), tok.addr.clone());
@@ -471,6 +499,7 @@ pub fn run(ctx: &Ctx, rep: &mut Report) {
                 for ep in &eps {
                     matrix(rep, &mut u, ep, &owner, &owners[..owners.len() - 1], Some(&member), &stranger, history);
                 }
+                migrate_after_handover(rep, &mut u, "operators", &oc, false, &owners, &newcomer, &stranger, history);
             }
             "its" => {
                 let mut w = ItsWorld::new(&mut rng, b"stellar", b"hub", 1);
@@ -506,11 +535,13 @@ pub fn run(ctx: &Ctx, rep: &mut Report) {
                 for ep in &eps {
                     matrix(rep, &mut w.u, ep, &owner, &owners[..owners.len() - 1], Some(&other_role), &stranger, history);
                 }
+                let its_addr = w.its.clone();
+                migrate_after_handover(rep, &mut w.u, "its", &its_addr, false, &owners, &newcomer, &stranger, history);
             }
             "interchain-token" => {
                 let mut u = U::new();
                 let owner0 = u.principal();
-                let minter = u.principal();
+                let minter = if aliased { owner0.clone() } else { u.principal() };
                 let stranger = u.principal();
                 let newcomer = u.principal();
                 let other = u.principal();
@@ -594,6 +625,7 @@ pub fn run(ctx: &Ctx, rep: &mut Report) {
                 for ep in &eps {
                     matrix(rep, &mut u, ep, &owner, &owners[..owners.len() - 1], Some(&minter), &stranger, history);
                 }
+                migrate_after_handover(rep, &mut u, "interchain-token", &tk, false, &owners, &newcomer, &stranger, history);
             }
             _ => {
                 // Upgrader: the target's owner must authorise both steps
